@@ -20,6 +20,9 @@ type c20Extra struct {
 	// inside a cell of a data table, inside a figure caption, alone inside a wrapper in running text,
 	// or inside a by-line element. These structures are copied or judged as a whole.
 	Nested string `json:"nested,omitempty"`
+	// Rescued: number of elements whose class/id holds an unlikely keyword and a rescue keyword; they are
+	// no unlikely candidates, and both reference pages have their class/id neutralised.
+	Rescued int `json:"rescued,omitempty"`
 }
 
 var c20Markers = []string{"sidebar", "footer", "menu", "banner", "breadcrumbs", "related", "social", "sponsor", "popup", "pager", "rss", "extra",
@@ -33,14 +36,26 @@ const (
 	c20MarkClose = "\x02"
 	c20SubOpen   = "\x03"
 	c20SubClose  = "\x04"
+	// attributes of an element that is NOT an unlikely candidate although an unlikely keyword occurs in
+	// them, because a rescue keyword (and|article|body|column|content|main|shadow, any case) occurs too:
+	// kept in the page itself, neutralised in both reference pages
+	c20ResOpen  = "\x05"
+	c20ResClose = "\x06"
 )
+
+var rxC20Res = regexp.MustCompile("\x05([^\x06]*)\x06")
+var rxC20Val = regexp.MustCompile(`="[^"]*"`)
+
+func c20Neutral(m string) string { return rxC20Val.ReplaceAllString(m[1:len(m)-1], `="zzneutral"`) }
 
 var rxC20Attr = regexp.MustCompile("\x01([^\x02]*)\x02")
 var rxC20Sub = regexp.MustCompile("(?s)\x03.*?\x04")
 
 func c20Variants(raw string) (d, del, ren string) {
 	d = rxC20Attr.ReplaceAllString(raw, "$1")
+	d = rxC20Res.ReplaceAllString(d, "$1")
 	d = strings.NewReplacer(c20SubOpen, "", c20SubClose, "").Replace(d)
+	raw = rxC20Res.ReplaceAllStringFunc(raw, c20Neutral)
 	del = rxC20Sub.ReplaceAllString(raw, "")
 	del = rxC20Attr.ReplaceAllString(del, "$1")
 	ren = rxC20Attr.ReplaceAllStringFunc(raw, func(m string) string {
@@ -79,6 +94,48 @@ func (g *G) c20Marker() string {
 	default:
 		return ` class="` + g.pick("mcls", c20Markers...) + `" id="` + g.pick("mid", c20Markers...) + `"`
 	}
+}
+
+var c20RescueWords = []string{"and", "article", "body", "column", "content", "main", "shadow"}
+
+// c20RescuedAttr: class/id text holding an unlikely keyword together with a rescue keyword, in the
+// spellings found in the wild (kebab, camel, Pascal/ASP.NET, upper case, the keyword "and" hidden
+// inside another word).
+func (g *G) c20RescuedAttr() string {
+	m := g.pick("rmk", c20Markers[:24]...)
+	r := g.pick("rword", c20RescueWords...)
+	switch g.pick("rcase", "lower", "Pascal", "Pascal", "UPPER") {
+	case "Pascal":
+		r = strings.ToUpper(r[:1]) + r[1:]
+		m = strings.ToUpper(m[:1]) + m[1:]
+	case "UPPER":
+		r = strings.ToUpper(r)
+	}
+	if r == "and" && g.chance(60, "rhiddenand") {
+		r = g.pick("randword", "brand", "expandable", "standard", "landing")
+	}
+	switch g.pick("rform", "one-class", "two-classes", "id+class", "id") {
+	case "one-class":
+		return ` class="` + r + g.pick("rsep", "-", "_", "") + m + `"`
+	case "two-classes":
+		return ` class="` + m + " " + r + `"`
+	case "id+class":
+		return ` id="` + r + `" class="has-` + m + `"`
+	default:
+		return ` id="ctl00_` + r + `_` + m + `"`
+	}
+}
+
+// c20Rescued: a block of article text in such an element.
+func (g *G) c20Rescued() string {
+	var inner string
+	for words := g.intn(40, 220, "rwords"); words > 0; {
+		k := min(words, g.intn(30, 110, "rpw"))
+		inner += "<p>" + g.inline(k) + "</p>\n"
+		words -= k
+	}
+	tag := g.pick("rtag", "div", "section", "div")
+	return "<" + tag + c20ResOpen + g.c20RescuedAttr() + c20ResClose + ">" + inner + "</" + tag + ">\n"
 }
 
 // rewritten emits constructs the first pass rewrites on its clone.
@@ -247,6 +304,14 @@ func genC20(t *rapid.T) *Case {
 			}
 		}
 	}
+	rescued := 0
+	if g.chance(30, "rescued") {
+		rescued = g.intn(1, 2, "nrescued")
+		for i := 0; i < rescued; i++ {
+			pos := g.intn(0, len(blocks), "rpos")
+			blocks = append(blocks[:pos], append([]string{g.c20Rescued()}, blocks[pos:]...)...)
+		}
+	}
 	var b strings.Builder
 	titleText := func() string { g.push("ha"); defer g.pop(); return g.words(g.intn(3, 7, "titlew")) }()
 	b.WriteString("<!DOCTYPE html><html><head><title>" + titleText + "</title></head><body>\n")
@@ -259,7 +324,13 @@ func genC20(t *rapid.T) *Case {
 		b.WriteString(g.chrome())
 	}
 	if wrap != "" {
-		b.WriteString("<" + wrap + ">\n")
+		wattr := ""
+		if wrap == "div" && g.chance(30, "wraprescued") {
+			// the wrapper of the whole article is such an element (id="ArticleBody" class="has-sidebar")
+			wattr = c20ResOpen + g.c20RescuedAttr() + c20ResClose
+			rescued++
+		}
+		b.WriteString("<" + wrap + wattr + ">\n")
 	}
 	if minified {
 		// a minified page: no white space between the elements
@@ -281,7 +352,7 @@ func genC20(t *rapid.T) *Case {
 		c.Opts.URL = "http://example.com/a/story.html"
 		c.Opts.Skip = true
 	}
-	c.SetExtra(c20Extra{Del: del, Ren: ren, Nested: nested})
+	c.SetExtra(c20Extra{Del: del, Ren: ren, Nested: nested, Rescued: rescued})
 	return c
 }
 
@@ -362,6 +433,9 @@ func checkC20(c *Case) (*Violation, caseInfo) {
 	}
 	if wcDel == 499 || wcDel == 500 {
 		info.Classes = append(info.Classes, fmt.Sprintf("boundary:exactly-%d", wcDel))
+	}
+	if ex.Rescued > 0 {
+		info.Classes = append(info.Classes, "rescued-element")
 	}
 	if observable {
 		info.Classes = append(info.Classes, "pruning-observable")
